@@ -45,3 +45,12 @@ P["C10"] = {
     "assumptions": ["exact_convey_array / decrypt_mod_t round a sum of doubles: model and spec use exact rational rounding and make no claim when the fraction is within (k+1)*2^-46 of 1/2 (f64 cannot decide); such inputs are counted as outside the documented domain",
                     "the auxiliary primes of RNSTool::new come from get_primes; the driver recomputes them with a deterministic Miller-Rabin"],
 }
+
+P["C01"] = {
+    "lean_modules": ["Heathcliff.Props.C01"],
+    "level": "proof",
+    "runs": lambda tier, seed: [{"seed": seed}] if tier == "quick" else [{"seed": seed * 1000 + i} for i in range(4)],
+    "search": lambda tier, seed: [{"seed": seed * 7919 + i} for i in range(2)],
+    "rule": "Contexts built by hand (security level None): N = 2..32 (thorough 2..128), 1..4 (6) NTT-friendly primes of 18..60 bits ascending/descending/mixed, plain modulus batching prime / 2^k / 3 / larger than a coefficient prime, special-prime flag set/unset/default, three schemes; plaintexts 0, all t-1, floor/ceil t/2 alternating, 1, short random, single top coefficient, full random; modes public-key / secret-key / secret-key+seed (expanded); encryptions of zero at every level; CKKS at every level with random complex slots. The ciphertext, secret key and plaintext are dumped; the driver recomputes the exact phase with big integers.",
+    "assumptions": ["the secret key is dumped in coefficient form through the library's own inverse NTT (checked by C09)", "drawn randomness (u, e, a) is whatever the library drew; the exact-phase oracle needs only the key and the ciphertext"],
+}
